@@ -59,6 +59,21 @@ pub assume_specification[ str::to_lowercase ](s: &str) -> (r: String) ensures r@
 pub assume_specification[ str::to_ascii_uppercase ](s: &str) -> (r: String) ensures r@ == str_upper(s@);
 pub assume_specification[ str::to_ascii_lowercase ](s: &str) -> (r: String) ensures r@ == str_lower(s@);
 pub assume_specification<'a>[ str::trim ](s: &'a str) -> (r: &'a str) ensures r@ == str_trim(s@);
+// std combinators that vstd does not specify yet (documented behaviour; a body that uses one stays inside the verifiable subset)
+pub assume_specification<T, E>[ Result::<T, E>::unwrap_or ](s: Result<T, E>, d: T) -> (r: T)
+    ensures r == (match s { Ok(v) => v, Err(_) => d });
+pub assume_specification<T>[ Option::<T>::or ](s: Option<T>, o: Option<T>) -> (r: Option<T>)
+    ensures r == (match s { Some(v) => Some(v), None => o });
+pub assume_specification<T, U>[ Option::<T>::and ](s: Option<T>, o: Option<U>) -> (r: Option<U>)
+    ensures r == (match s { Some(_) => o, None => None::<U> });
+pub assume_specification<T, E, F>[ Result::<T, E>::or ](s: Result<T, E>, o: Result<T, F>) -> (r: Result<T, F>)
+    ensures r == (match s { Ok(v) => Ok::<T, F>(v), Err(_) => o });
+pub assume_specification<T>[ bool::then_some ](b: bool, t: T) -> (r: Option<T>)
+    ensures r == (if b { Some(t) } else { None::<T> });
+pub assume_specification[ u128::abs_diff ](a: u128, b: u128) -> (r: u128)
+    ensures r == (if a >= b { a - b } else { b - a });
+pub assume_specification[ u64::abs_diff ](a: u64, b: u64) -> (r: u64)
+    ensures r == (if a >= b { a - b } else { b - a });
 pub assume_specification<T, E>[ Option::<Result<T, E>>::transpose ](o: Option<Result<T, E>>) -> (r: Result<Option<T>, E>)
     ensures
         o is None ==> r == Ok::<Option<T>, E>(None),
